@@ -118,6 +118,9 @@ def child_case(rng, seed):
     cfg = E.policy_cfg(policy)
     cfg["execution_ttl"] = 600
     cdef, cstatus = CHILDREN[kind]
+    # the parent's own execution name may be as long as a name can be: the children it launches still get names (and
+    # ARNs) of their own
+    pname = rng.choice(["p1", "p1", "p1", "n" * 80, "order-2024-06-30T23.59.59Z_batch-0000017_retry-3_region-eu-west-1_customer-00042x"[:80]])
     inp = {"k": 7, "items": [1, 2]} if placement == "map" else {"k": 7}
     if kind == "falsy":
         inp["k"] = rng.choice(FALSY[:5])      # (null as a whole document is a recorded C01 finding)
@@ -125,10 +128,10 @@ def child_case(rng, seed):
     scn = {"machines": {"child": {"definition": cdef, "type": ctype},
                         "parent": {"definition": parent_machine(form, placement, timeout, catch,
                                                                 "ghost" if unknown else "child"), "type": ptype}},
-           "executions": [{"machine": "parent", "input": inp, "name": "p1"}], "script": script,
+           "executions": [{"machine": "parent", "input": inp, "name": pname}], "script": script,
            "functions": sorted(script), "config": cfg}
     meta = dict(form=form, kind=kind, placement=placement, ptype=ptype, ctype=ctype, catch=catch, timeout=timeout,
-                unknown=unknown, policy=policy, exact=cfg["latency"] == "zero")
+                unknown=unknown, policy=policy, exact=cfg["latency"] == "zero", pname=pname)
     return scn, meta
 
 
@@ -141,7 +144,7 @@ def check_child(scn, meta, seed):
                                                             "never-acked", "ack-twice"):
             findings.append(dict(f, property=PROP))
     w = res.world
-    parn = E.EX_ARN % ("parent", "p1")
+    parn = E.EX_ARN % ("parent", meta.get("pname", "p1"))
     pt = w.terminal_events().get(parn, [])
     if not pt:
         return res, findings
